@@ -1,14 +1,15 @@
 ----------------------------- MODULE Frame_MC -----------------------------
 EXTENDS Frame, IOUtils
 
-MCShapes == {[hm |-> h, body |-> b] : h \in {0, 4, 5, 9}, b \in {0, 7, 12}}
+MCShapes == {[hm |-> h, body |-> b] : h \in {0, 4, 5, 9}, b \in {0, 1, 7, 12}}
 
 \* the history variable is irrelevant for the design check
 View == <<frames, junk, avail, consumed, out, mode, last>>
 
 \* ---- scenario generation (Frame_Gen.cfg): dump every terminal behaviour once ----
 GenShapes1 == MCShapes
-GenShapes2 == {[hm |-> h, body |-> b] : h \in {0, 9}, b \in {0, 7}}
+\* body = 1: a well-formed frame whose body is too short to hold a type code (delivered with an empty body)
+GenShapes2 == {[hm |-> h, body |-> b] : h \in {0, 9}, b \in {0, 1, 7}}
 GenShapes3 == {[hm |-> 0, body |-> 0], [hm |-> 5, body |-> 7]}
 
 ScenFile == IOEnv.SCEN_FILE
